@@ -20,6 +20,10 @@ from ..panics import describe_operand
 
 def run(ctx, res):
     P = ctx.P
+    # STATE-WRITERS (shared with C02/C09): the outcome of a resumed evaluation is the uninterrupted outcome only if nothing
+    # but the interpreter's own primitives touches the pending entries and operands between the interrupt and `:resume`
+    from .. import panicinv as _PI
+    _PI.valstack_writers(P, res)
     L = EL.locate(P)
     f = L.f
     pre = L.pre_region
